@@ -7,6 +7,7 @@
 References are history-independent by construction, so they are computed
 before the run child is forked; there is no IPC during a run.
 """
+import json
 import sys
 
 from . import lib
@@ -47,7 +48,9 @@ def _ref_child(callspec, want_entries):
 
 
 def get_ref(callspec, want_entries=False, dup=0):
-    key = (canon(callspec), bool(want_entries), dup)
+    # (order-preserving key: two specs that differ only in dict insertion order are
+    # distinct references, so nothing depends on the library being insensitive to it)
+    key = (json.dumps(callspec, sort_keys=False, separators=(',', ':')), bool(want_entries), dup)
     hit = _ref_memo.get(key)
     if hit is not None:
         _ref_stats['hits'] += 1
